@@ -232,7 +232,7 @@ impl Property for C17 {
                             // scale: sum of absolute terms of d2(fg)/didj
                             let (fi, fj, gi, gj) = (c.f.stored1(req[i]), c.f.stored1(req[j]), c.g.stored1(req[i]), c.g.stored1(req[j]));
                             let scale = (2.0 * c.f.stored2(req[i], req[j]) * c.g.real.0).abs() + (2.0 * c.g.stored2(req[i], req[j]) * c.f.real.0).abs() + (fi * gj).abs() + (fj * gi).abs();
-                            if (rows[i][j] - prod[[i, j]]).abs() > 1e-12 * scale + 1e-300 {
+                            if !((rows[i][j] - prod[[i, j]]).abs() <= 1e-12 * scale + 1e-300) {
                                 v.fail(
                                     if c.f.layout.contains(&req[i]) || c.g.layout.contains(&req[i]) { "product rule on manifolds does not reproduce the Hessian of the product" } else { "product rule on manifolds | absent name" },
                                     format!("row {} col {}: manifold product rule {:e}, Hessian of product {:e}", req_names[i], req_names[j], rows[i][j], prod[[i, j]]),
